@@ -403,6 +403,11 @@ func (f Slice) startEndStep(size int) (start, end, step int) {
 			return
 		}
 	}
+	if size == 0 {
+		// Nothing to select and no index to start from. A step of zero
+		// tells the caller so.
+		return 0, 0, 0
+	}
 	if start < 0 {
 		start = size + start
 	} else if size <= start {
@@ -412,8 +417,9 @@ func (f Slice) startEndStep(size int) (start, end, step int) {
 		start = 0
 	}
 	if end < 0 {
-		end = size + end + 1
-		if end < 0 && step < 0 {
+		// The end is exclusive, as in Get.
+		end = size + end
+		if end < -1 && step < 0 {
 			end = -1
 		}
 	} else if size < end {
@@ -540,6 +546,9 @@ func (f Slice) locate(pp Expr, data any, rest Expr, max int) (locs []Expr) {
 		switch rt.Kind() {
 		case reflect.Slice, reflect.Array:
 			start, end, step := f.startEndStep(rd.Len())
+			if step == 0 {
+				return
+			}
 			if 0 < step {
 				if len(rest) == 0 { // last one
 					for i := start; i < end; i += step {
